@@ -493,7 +493,10 @@ class C12(Check):
         L = Loc(frame)
         isfrag = L.ip and (L.mf or L.frag != 0)
         accepted = c is not None and not (c & PC_NO_RECV and not stp) and not (c & PC_NO_RECV_STP and stp) and not ((st["flags"] & 3) == 1 and isfrag)
-        if not accepted: return [], cfg, ("rx", frame, ingress)
+        st["dropped"] = None
+        if not accepted:
+            st["dropped"] = "unknown-port" if c is None else ("fragment-under-FRAG_DROP" if ((st["flags"] & 3) == 1 and isfrag and not (c & PC_NO_RECV and not stp) and not (c & PC_NO_RECV_STP and stp)) else "receive-disabled-port")
+            return [], cfg, ("rx", frame, ingress)
         r = st["erx"].setdefault(ingress, [0, 0]); r[0] += 1; r[1] += len(frame)
         exp, _ = self._table(st["rules"], cfg, st["miss"], frame, ingress, frame)
         for o in exp:
@@ -550,6 +553,8 @@ class C12(Check):
             if sorted(cfg) != sorted(real_after) and op["op"] in ("portmod", "batch", "link"):
                 return "op %d: port_mod/link sequence leaves ports (no, config, state) %s, expected %s" % (i, sorted(real_after), sorted(cfg))
             where, frame, ingress = infos[-1] if infos else (op["op"], b"", None)
+            if op["op"] == "rx" and st.get("dropped") and got:
+                return "op %d rx: a frame that must be dropped (%s) was processed: %s" % (i, st["dropped"], [(o["k"], o.get("port")) for o in got][:6])
             if op["op"] == "rx":                      # (accepted receptions were tallied by _expect; the counters are compared at the end)
                 c = dict((n, c) for n, c, s in cfg).get(ingress)
                 if c is not None and (c & PC_NO_RECV) and frame[:6] != STP_MAC and got: return "op %d: frame from a NO_RECV port was processed" % i
@@ -635,6 +640,7 @@ class C12(Check):
         if "tx counters" in failure:
             if any(a["a"] == "set_vlan_pcp" and a["v"] > 7 for a in acts): return "action:set_vlan_pcp:out-of-range:struct.error"
             return "counters:tx"
+        if "must be dropped" in failure: return "rx:dropped-frame-processed:" + failure.split("(", 1)[1].split(")")[0]
         if "packet-in buffer ids" in failure: return "buffers:packet-in-buffering"
         if "ingress port" in failure: return "ports:ingress-not-excluded"
         if "NO_RECV" in failure: return "ports:no-recv-processed"
@@ -1048,6 +1054,20 @@ class C12(Check):
         for v, why in steer(pseudo(17, bytes(18)) + struct.pack("!HHHH", 1000, 2000, 18, 0) + bytes(2) + data9[:8]):
             fr = ethh(ip_packet(ips, ipd, 17, udp_seg(ips, ipd, 1000, 2000, struct.pack("!H", v) + data9[:8])))
             cases.append({"ops": [po(fr, o2), {"op": "flow", "in_port": None, "acts": [out1(P_FLOOD)]}, {"op": "rx", "port": 1, "data": fr}], "why": "udp payload " + why, "wf": True, "canon": True})
+        # (u) every kind of IPv4 fragment against every fragment-handling mode (set_config flags 0..3): unfragmented, DF only, first fragment
+        #     (MF, offset 0), middle (MF, offset), last (offset only), DF+MF — opaque protocol (no L4 to re-serialise) and UDP, untagged and
+        #     tagged, through a flow entry, through a table miss, and without packet_data; only OFPC_FRAG_DROP (1) drops, and only fragments
+        fragkinds = (("whole", 0x0000), ("df", 0x4000), ("first", 0x2000), ("middle", 0x2000 | 7), ("last", 0x0000 | 7), ("df+mf", 0x6000), ("last-max", 0x1fff))
+        for name, ff in fragkinds:
+            for proto, body in ((89, bytes(range(16))), (17, udp_seg(ips, ipd, 1000, 2000, bytes(range(8))))):
+                for tag in (None, 0x2003):
+                    pkt = ip_packet(ips, ipd, proto, body, flags=ff >> 13, frag=ff & 0x1fff)
+                    fr = eth_frame(bytes.fromhex("66778899aabb"), bytes.fromhex("001122334455"), 0x0800, pkt, tag).hex()
+                    for mode in (0, 1, 2, 3):
+                        cases.append({"ops": [{"op": "setconfig", "flags": mode, "miss": 64}, {"op": "flow", "in_port": 1, "acts": [out1(2), out1(P_IN_PORT)]},
+                                              {"op": "rx", "port": 1, "data": fr}, {"op": "rx", "port": 3, "data": fr}, {"op": "rx", "port": 1, "data": fr, "nopd": True},
+                                              {"op": "setconfig", "flags": 0, "miss": 64}, {"op": "rx", "port": 1, "data": fr}, stats],
+                                      "why": "fragment %s proto %d mode %d" % (name, proto, mode), "canon": True})
         # (s) a flow_mod whose actions include a type without handler (C13-4: refused with BAD_ACTION/BAD_TYPE and not installed; without the
         #     pre-check: installed, processing stops at that action) — first / middle / last, then traffic, then a good entry behind it
         ven = {"a": "vendor", "v": 7}
